@@ -30,15 +30,22 @@ Definition error_bounds_half (md : mode) (B : Z) : Z * Z :=
   end.
 
 (** value of one bound.  FBig::ulp panics at unlimited precision (float/src/fbig.rs), and half_ulp
-    starts as f.ulp(); otherwise ulp = B^(ex + digits - p). *)
+    starts as f.ulp(); otherwise ulp = B^(ex + digits - p); towards_zero(f, t) lowers the exponent
+    of t by the regenerated amount [eb_towards_zero_drop_gen] (a zero stays zero). *)
+Fixpoint eb_term_base (t : eb_term) : eb_term :=
+  match t with EBTowardsZero t' => eb_term_base t' | _ => t end.
+Fixpoint eb_term_drop (B sig : Z) (t : eb_term) : Z :=
+  match t with EBTowardsZero t' => eb_term_drop B sig t' + eb_towards_zero_drop_gen B sig | _ => 0 end.
+
 Definition eb_term_eval (B : Z) (md : mode) (p sig ex : Z) (t : eb_term) : result frac :=
   let e := ex + ndigits B (Z.abs sig) - p in
-  match t with
-  | EBZero => Ok (0, 1)
-  | EBUlp => if p =? 0 then Panic UnlimitedPrecision else Ok (scaled B 1 e 1)
+  let d := eb_term_drop B sig t in
+  match eb_term_base t with
+  | EBUlp => if p =? 0 then Panic UnlimitedPrecision else Ok (scaled B 1 (e - d) 1)
   | EBHalfUlp =>
       if p =? 0 then Panic UnlimitedPrecision
-      else Ok (scaled B (fst (error_bounds_half md B)) (e - snd (error_bounds_half md B)) 1)
+      else Ok (scaled B (fst (error_bounds_half md B)) (e - snd (error_bounds_half md B) - d) 1)
+  | _ => Ok (0, 1)
   end.
 
 (** a row: the components of the returned tuple are evaluated left to right *)
@@ -60,18 +67,19 @@ Proof.
   intros B md p sig ex Hs.
   assert (Hz : (sig =? 0) = false) by (apply Z.eqb_neq; exact Hs).
   destruct md;
-    cbv beta iota delta [error_bounds_asis error_bounds_table error_bounds_half
+    cbv beta iota delta [error_bounds_asis error_bounds_table error_bounds_half is_power_of_base
       error_bounds_Zero_gen error_bounds_Away_gen error_bounds_Up_gen error_bounds_Down_gen
       error_bounds_HalfEven_gen error_bounds_HalfAway_gen
       error_bounds_Zero_half_gen error_bounds_Away_half_gen error_bounds_Up_half_gen
       error_bounds_Down_half_gen error_bounds_HalfEven_half_gen error_bounds_HalfAway_half_gen];
     rewrite ?Hz;
     destruct (Z.eqb_spec p 0) as [Hp | Hp];
-    try (cbv beta iota delta [eb_eval eb_term_eval rbind]; reflexivity);
+    try (cbv beta iota delta [eb_eval eb_term_eval eb_term_base eb_term_drop rbind]; reflexivity);
     (destruct (Z.ltb_spec sig 0) as [Hn | Hn];
      [ rewrite ?(eb_sign_of_neg sig Hn) | rewrite ?(eb_sign_of_pos sig ltac:(lia)) ]);
-    cbv beta iota zeta delta [eb_eval eb_term_eval rbind eb_sign_eqb fst snd];
-    rewrite ?(proj2 (Z.eqb_neq p 0) Hp);
+    cbv beta iota zeta delta [eb_eval eb_term_eval eb_term_base eb_term_drop rbind eb_sign_eqb fst snd
+      eb_towards_zero_drop_gen eb_is_power_of_base_gen];
+    rewrite ?(proj2 (Z.eqb_neq p 0) Hp), ?Z.sub_0_r, ?Z.add_0_l;
     reflexivity.
 Qed.
 
@@ -81,4 +89,11 @@ Example error_bounds_asis_eq_table_ex :
   error_bounds_asis 2 MHalfEven 3 5 1 = Ok ((1, 1), (1, 1), false, false)
   /\ eb_eval 2 MHalfEven 3 5 1 (error_bounds_table MHalfEven 2 3 5 (ndigits 2 (Z.abs 5)))
      = Ok ((1, 1), (1, 1), false, false).
+Proof. split; vm_compute; reflexivity. Qed.
+
+(** a power of the base: 10^1 with one digit, HalfAway: half an ulp = 5 above, 5/10 below *)
+Example error_bounds_asis_eq_table_pow_ex :
+  error_bounds_asis 10 MHalfAway 1 1 1 = Ok ((1, 2), (5, 1), true, false)
+  /\ eb_eval 10 MHalfAway 1 1 1 (error_bounds_table MHalfAway 10 1 1 (ndigits 10 (Z.abs 1)))
+     = Ok ((1, 2), (5, 1), true, false).
 Proof. split; vm_compute; reflexivity. Qed.
